@@ -200,15 +200,26 @@ func (d *driver) await(st step) {
 
 func (d *driver) barrier() bool {
 	d.nbar++
-	if !d.w.barrier(d.nbar) {
-		select {
-		case <-d.w.served:
-			d.sessionEnded()
-		default:
-			d.c.Inconclusive("barrier %d was not answered", d.nbar)
+	id := d.w.barrierSend(d.nbar)
+	if !d.w.barrierWait(d.nbar, id, grace) {
+		// Is the serve loop parked inside the MUC handler for good?
+		for _, p := range stall.Check(func(fn string) bool { return strings.HasPrefix(fn, "muc.(*Client).Handle") }, 0) {
+			if _, old := d.base[p.ID]; !old {
+				d.c.Violate(stall.Key(p), "the serve loop no longer answers: it is parked in the MUC handler:\n%s", p.Stack)
+				d.aborted = true
+				return false
+			}
 		}
-		d.aborted = true
-		return false
+		if !d.w.barrierWait(d.nbar, id, hardLimit) {
+			select {
+			case <-d.w.served:
+				d.sessionEnded()
+			default:
+				d.c.Inconclusive("barrier %d was not answered", d.nbar)
+			}
+			d.aborted = true
+			return false
+		}
 	}
 	d.c.Count("barriers", 1)
 	// sample membership of every occupant that has a channel and no call in flight
